@@ -368,6 +368,15 @@ impl<'tcx> Cx<'tcx> {
                         let _ = write!(s, ",\"int\":{}", bits);
                     }
                 }
+                if let Some(v) = ct.try_to_value() {
+                    if matches!(ty.kind(), ty::Ref(_, inner, _) if inner.is_str()) {
+                        if let Some(bytes) = v.try_to_raw_bytes(tcx) {
+                            if let Ok(st) = std::str::from_utf8(bytes) {
+                                let _ = write!(s, ",\"str\":{}", esc(st));
+                            }
+                        }
+                    }
+                }
             }
         }
         s.push('}');
@@ -705,7 +714,7 @@ impl<'tcx> Cx<'tcx> {
                 if is_const {
                     // only thread_local!-style keys are interesting among consts
                     let ts = self.ty_s(t);
-                    if !ts.starts_with("std::thread::LocalKey<") {
+                    if !ts.starts_with("std::thread::local::LocalKey<") {
                         continue;
                     }
                 }
